@@ -38,6 +38,10 @@ def run(facts, tier):
     obs += o
     rules.append({"rule": "narrow image arithmetic", "instances": len(o), "min": 1,
                   "text": "no 32-bit image field is shifted / multiplied in 32 bits before a size check or allocation (the wrapped value passes the check while the 64-bit capacity does not)"})
+    o = reader_extra.decoder_bounds(facts)
+    obs += o
+    rules.append({"rule": "reader.decoder-bounds", "instances": len(o), "min": 2,
+                  "text": "CPC decompression compares the word index with the number of compressed words before each word is read, and a decoded row with k before it indexes the window"})
     o = reader_extra.serde_string_guard(facts)
     obs += o
     rules.append({"rule": "reader.serde-string", "instances": len(o), "min": 2,
